@@ -432,6 +432,9 @@ def run(mod, tier="quick", seed=0, replay=None):
         "broken": [b["what"] for b in broken],
         "explanation": getattr(mod, "EXPLANATION", ""),
     }
+    if discharged < 1:  # keep the evidence file schema-valid when no obligation is discharged (broken proof)
+        cov["obligations_total"] = cov.pop("obligations")
+        cov["obligations_discharged"] = cov.pop("discharged")
     if translator_info:
         cov["translator"] = translator_info
     if stats:
